@@ -18,7 +18,8 @@ from metador_core.ih5.manifest import IH5MFRecord  # noqa: E402
 # ---------------------------------------------------------------- generators
 
 SMALL = ["a", "b", "c", "d"]
-AWKWARD = ["..", "~", "!", "metador", "0", "12", "A-Z_", "x.y", "a b".replace(" ", "+"), "[]{}", "#%&*", "zzzzzzzzzzzz", "'\"`", "\\", "a=b"]
+AWKWARD = ["..", "~", "!", "metador", "0", "12", "A-Z_", "x.y", "a b".replace(" ", "+"), "[]{}", "#%&*", "zzzzzzzzzzzz", "'\"`", "\\", "a=b",
+           "ab", "a-1", "a.old", "aa", "bc"]  # (names that have another pool name as string prefix)
 
 seg = st.one_of(st.sampled_from(SMALL), st.sampled_from(SMALL), st.sampled_from(SMALL), st.sampled_from(SMALL),
                 st.sampled_from(SMALL), st.sampled_from(AWKWARD))
@@ -42,6 +43,8 @@ value = st.one_of(
               st.sampled_from(["i8", "f8", "i2", "u1"])),
     st.just({"t": "empty", "dt": "f4"}),
     st.just({"t": "empty", "dt": "i8"}),
+    # one-byte scalars around the deletion marker's byte value (the marker itself is the opaque blob 0x7f only)
+    st.builds(lambda dt, v: {"t": "arr", "dt": dt, "v": v}, st.sampled_from(["i1", "u1"]), st.sampled_from([127, 126, 0, 1])),
     st.builds(lambda v: {"t": "bool", "v": v}, st.booleans()),
 )
 small_value = st.one_of(st.builds(lambda v: {"t": "int", "v": v}, st.integers(0, 9)), value)
@@ -63,6 +66,7 @@ data_op = st.one_of(
     st.tuples(st.just("touch"), ref, st.integers(0, 3), small_value),
     st.tuples(st.just("touch"), ref, st.integers(0, 3), small_value),
     st.tuples(st.just("copyinto"), ref, relpath),
+    st.tuples(st.just("renamesfx"), ref, st.sampled_from(["b", ".old", "-1", "a", "_"]), st.booleans()),
 )
 boundary_op = st.one_of(
     st.just(("commit",)), st.just(("commit",)), st.just(("commit",)), st.just(("commit",)),
@@ -165,6 +169,15 @@ def bind(op, tree):
         g = groups[1 + op[1] % (len(groups) - 1)]
         return [dict(op="copy", recv="/", src=g, src_abs=g, dst=g + "/" + op[2], dst_abs=join(g, op[2]),
                      without_attrs=False, into_self=True)]
+    if kind == "renamesfx":  # rename / copy to a sibling whose name has the source name as string prefix
+        if not nodes:
+            return []
+        p = nodes[op[1] % len(nodes)]
+        k2 = "move" if op[3] else "copy"
+        b = dict(op=k2, recv="/", src=p, src_abs=p, dst=p + op[2], dst_abs=p + op[2], macro="renamesfx")
+        if k2 == "copy":
+            b["without_attrs"] = False
+        return [b]
     if kind == "replace":
         if not nodes:
             return []
@@ -443,7 +456,7 @@ def _touch_paths(b):
     return []
 
 
-DATA_KINDS = {"set", "mkgrp", "del", "setattr", "delattr", "copy", "move", "copyinto", "replace", "touch"}
+DATA_KINDS = {"set", "mkgrp", "del", "setattr", "delattr", "copy", "move", "copyinto", "replace", "touch", "renamesfx"}
 
 
 class Session:
@@ -491,6 +504,15 @@ class Session:
                             extra=dict(where=where))
 
     def boundary(self, op):
+        try:
+            return self._boundary(op)
+        except (Violation, HarnessError):
+            raise
+        except Exception as e:  # noqa: BLE001 - commit / reopen / discard are plain documented calls here
+            raise Violation(f"{self.sig}:record-op-raises:{op[0]}", f"{op} at {self.pos}: {type(e).__name__}: {str(e)[:300]}",
+                            "commit, reopen and discard of a valid record succeed")
+
+    def _boundary(self, op):
         kind, target, out = op[0], self.target, self.out
         if self.placement == "none" or target.kind == "h5" and kind == "discard":
             return
